@@ -1,6 +1,7 @@
 package props
 
 import (
+	"strings"
 	"math"
 	"errors"
 	"fmt"
@@ -103,6 +104,11 @@ func idxKeyOf(v interface{}, field string) (string, bool) {
 	}
 	if raw == emptyKeyMarker {
 		return "", true
+	}
+	// "<FF>" in a stored key stands for the byte 0xFF (which a JSON string
+	// cannot carry): index keys are arbitrary bytes
+	if strings.Contains(raw, "<FF>") {
+		raw = strings.ReplaceAll(raw, "<FF>", "\xff")
 	}
 	return raw, true
 }
